@@ -493,7 +493,13 @@ func (ms *MidState) reviseFileContractElement(fce types.FileContractElement, rev
 
 func (ms *MidState) resolveFileContractElement(fce types.FileContractElement, valid bool, txid types.TransactionID) {
 	fced := ms.recordFileContractElement(fce.ID)
-	fced.FileContractElement = fce.Copy()
+	// If the contract was revised earlier in this block, fce holds the revised
+	// contract; the diff must keep the original element (the revision is
+	// reported separately), otherwise reverting the block would restore the
+	// wrong leaf.
+	if fced.Revision == nil {
+		fced.FileContractElement = fce.Copy()
+	}
 	fced.Resolved = true
 	fced.Valid = valid
 	ms.spends[fce.ID] = txid
